@@ -69,6 +69,19 @@ CLAIMED = {
         "Builder schedules are sampled.",
    technique="TLA+ abstract graph specification + TLC model checking of the concurrent transpose + TLC trace validation of real constructions",
    engine="mc+free+tv", design_ref="6/C11"),
+ "C12": dict(
+   category="model_checking",
+   text="FileFormat.tla fixes the .gr layout (header, index, 32/64-bit destinations, version 1 padding, edge data offsets, sub-range "
+        "slices) and ConvertAbs.tla the meaning of 13 graph-convert conversions over abstract graphs (edge-list/CSV/DIMACS parsing with "
+        "skipped lines and inferred node count, list output, transpose, symmetrise, clean, sort by destination/weight, random weights in "
+        "range, endian swap). FileGraphWriter and toFile are byte-compared with an independent writer for both versions, void/4/8-byte "
+        "data, odd and even edge counts; fromFile, fromFileInterleaved, partFromFile at every split, OCFileGraph segments, OfflineGraph "
+        "and BufferedGraph (whole/partial) are dumped; graph-convert, built from the working tree, runs on generated inputs and its "
+        "outputs are parsed by an independent Python reader. TLC judges every record.",
+   note="Trusted: TLC, the two independent layout implementations (C++ and Python), logging. Ids/weights below 2^31. Other "
+        "graph-convert modes and the huge/dist converters are out of scope.",
+   technique="TLA+ layout and conversion specification + TLC trace validation of real writer/reader/converter runs against independent codecs",
+   engine="free+tv", design_ref="6/C12"),
  "C05": dict(
    category="model_checking",
    text="Each barrier (counting, MCS tree, dissemination, topology-aware for 6 socket layouts, the condition-variable "
